@@ -236,3 +236,77 @@ def twin_every_descendant_is_drawn(pm: int, pl: int, ps: int) -> bool:
     """
     _tree(pm, pl, ps, -1)
     return not (_S1._parent is _L and _L._parent is _M and _M._parent is _T)  # a sensor three levels deep is reachable
+
+
+# ---------------------------------------------------------------------------- animation frames draw the path index they announce
+import warnings as _warnings
+
+import magpylib._src.display.traces_generic as _TG
+
+_PATH_SENS = [_magpy.Sensor(position=[(i, 0, 0) for i in range(n)]) for n in (2, 3, 5, 7, 12)]
+
+
+def h_animation_frames_draw_announced_index(i_len: int, i_max: int, i_fps: int, i_secs: int) -> bool:
+    """
+    pre: 0 <= i_len <= 4 and 0 <= i_max <= 3 and 0 <= i_fps <= 2 and 0 <= i_secs <= 1
+    post: _
+    """
+    # get_frames (frame selection, down-sampling) with the trace builder stubbed: every frame asks the builder for exactly the path index
+    # that its name / title announce, the indices increase, stay inside the path, and the last path position is shown
+    s = _pick(_PATH_SENS, i_len)
+    n = len(s._position)
+    asked = []
+
+    def fake_draw_frame(objs, **kw):
+        asked.append(list(kw["style_kwargs"].get("style_path_frames", ["missing"])))
+        return [], [], {}
+
+    orig = _TG.draw_frame
+    _TG.draw_frame = fake_draw_frame
+    try:
+        with _warnings.catch_warnings():
+            _warnings.simplefilter("ignore")
+            out = _TG.get_frames([{"objects": [s], "row": 1, "col": 1}], animation=True, style_kwargs={}, animation_maxframes=_pick((2, 3, 4, 50), i_max),
+                                 animation_fps=_pick(FPS, i_fps), animation_time=_pick(SECS, i_secs))
+    finally:
+        _TG.draw_frame = orig
+    names = [int(f["name"]) - 1 for f in out["frames"]]
+    drawn = [int(a[0]) for a in asked if len(a) == 1 and a[0] != "missing"]
+    ok = len(drawn) == len(asked) == len(names) and drawn == names
+    ok = ok and all(0 <= k < n for k in names) and all(a < b for a, b in zip(names, names[1:])) and names[-1] == n - 1
+    return ok
+
+
+def twin_animation_frames_downsampled(i_len: int, i_max: int) -> bool:
+    """
+    pre: 0 <= i_len <= 4 and 0 <= i_max <= 3
+    post: _
+    """
+    s = _pick(_PATH_SENS, i_len)
+    orig = _TG.draw_frame
+    _TG.draw_frame = lambda objs, **kw: ([], [], {})
+    try:
+        with _warnings.catch_warnings():
+            _warnings.simplefilter("ignore")
+            out = _TG.get_frames([{"objects": [s], "row": 1, "col": 1}], animation=True, style_kwargs={}, animation_maxframes=_pick((2, 3, 4, 50), i_max))
+    finally:
+        _TG.draw_frame = orig
+    return len(out["frames"]) == len(s._position)  # must be refuted: some setting down-samples the path
+
+
+# ---------------------------------------------------------------------------- the coordinates are in the unit announced on the axes
+from magpylib._src.utility import get_unit_factor
+
+_PREFIXES = (("y", -24), ("z", -21), ("a", -18), ("f", -15), ("p", -12), ("n", -9), ("µ", -6), ("m", -3), ("c", -2), ("d", -1), ("k", 3), ("M", 6), ("G", 9),
+             ("T", 12), ("P", 15), ("E", 18), ("Z", 21), ("Y", 24))
+
+
+def h_unit_factor(i: int) -> bool:
+    """
+    pre: 0 <= i <= 17
+    post: _
+    """
+    # a length of x metres is drawn as x * factor in the announced unit <prefix>m = 10**power m, so factor * 10**power == 1
+    pref, power = _pick(_PREFIXES, i)
+    f = get_unit_factor(pref + "m", target_unit="m")
+    return abs(f * 10.0 ** power - 1.0) < 1e-9 and get_unit_factor("m", target_unit="m") == 1 and get_unit_factor(None, target_unit="m") == 1
